@@ -358,6 +358,49 @@ func (e *detExec) Do(line string) string {
 				edits++
 			}
 		}
+		// every other sort key that has an updater: message ids (the order of an interface's sent
+		// messages) and message names, bus names, signal names, enum names and value names, builder
+		// names — each in an order-reversing way, AFTER the listings above have been asked for
+		msgs := append([]*acmelib.Message{}, g.msgs...)
+		sort.Slice(msgs, func(i, j int) bool {
+			if msgs[i].ID() != msgs[j].ID() {
+				return msgs[i].ID() < msgs[j].ID()
+			}
+			return msgs[i].EntityID() < msgs[j].EntityID()
+		})
+		for i, m := range msgs {
+			if variant%2 == 0 && m.UpdateID(acmelib.MessageID(1900-i)) == nil {
+				edits++
+			}
+			if m.UpdateName(sprintf("r%03d_%s", len(msgs)-i, m.Name())) == nil {
+				edits++
+			}
+		}
+		for i, b := range g.buses {
+			if b.UpdateName(sprintf("r%03d_%s", len(g.buses)-i, b.Name())) == nil {
+				edits++
+			}
+		}
+		for i, sg := range g.sigs {
+			if seed%2 == 0 && sg.UpdateName(sprintf("r%03d_%s", len(g.sigs)-i, sg.Name())) == nil {
+				edits++
+			}
+		}
+		for i, en := range g.enums {
+			en.UpdateName(sprintf("r%03d_%s", len(g.enums)-i, en.Name()))
+			edits++
+			vals := en.Values()
+			for k, v := range vals {
+				if v.UpdateName(sprintf("r%03d_%s", len(vals)-k, v.Name())) == nil {
+					edits++
+				}
+			}
+		}
+		for i, cb := range g.builders {
+			if cb.UpdateName(sprintf("r%03d_%s", len(g.builders)-i, cb.Name())) == nil {
+				edits++
+			}
+		}
 		if edits == 0 {
 			return
 		}
@@ -370,7 +413,7 @@ func (e *detExec) Do(line string) string {
 			e.add("c15-stale-after-edit:load-error", ctx+": "+err.Error())
 			return
 		}
-		e.compare("c15-stale-after-edit:", sprintf("%s after renaming / renumbering %d nodes: edited network vs the equal network loaded from its save", ctx, len(nodes)), ref2, detExport(loaded2), seen)
+		e.compare("c15-stale-after-edit:", sprintf("%s after renaming / renumbering %d nodes and the messages, buses, signals, enums, values, builders: edited network vs the equal network loaded from its save", ctx, len(nodes)), ref2, detExport(loaded2), seen)
 	}()
 
 	if len(seen) > 0 || ref.err != "" {
